@@ -396,6 +396,7 @@ def deep_eq(a, b):
 NAMES = ["a", "b", "c", "aa", "ab", "B", "Z", "z", "_x", "0", "10", "9", "k1", "k2", "id", "name",
          "index", "default", "required", "items", "null", "length", "codec", "é", "ñandú", "漢", "a b", "A"]
 INT_FMTS = "bBhHiIlLqQ"
+WIDE_ENCODINGS = ["utf-16-le", "utf-16-be", "utf-32-le", "utf-32-be", "utf-16", "utf-32"]
 SPECIAL_FLOATS = [0.0, -0.0, 1.0, -1.5, 0.1, 1e-3, 3.5, 1 / 3, 2.0**-149, 2.0**-150, 2.0**-126, 1e-40, 1e-46,
                   3.4028234663852886e38, 16777217.0, 16777219.0, 1e10, 6.02e23, float("inf"), float("-inf"),
                   float("nan"), 5e-324, 1.7976931348623157e308, 2.5, 1 + 2.0**-23, 1 + 2.0**-24, 1 + 3 * 2.0**-24]
@@ -427,8 +428,14 @@ def gen_leaf(rng, plain=False):
         if rng.random() < 0.4:
             s["nullTerminated"] = rng.random() < 0.8
         if rng.random() < 0.3:
-            s["stringEncoding"] = rng.choice(["utf-8", "ascii", "latin-1", "latin-1", "utf-16-le"] if not plain
+            s["stringEncoding"] = rng.choice(["utf-8", "ascii", "latin-1", "latin-1"] + WIDE_ENCODINGS if not plain
                                              else ["utf-8", "ascii", "latin-1"])
+            if s["stringEncoding"] in WIDE_ENCODINGS and fmt[-1] in "sp" and fmt not in ("s", "p"):
+                # multi-byte code units: make NUL termination and fixed widths meet them often
+                if rng.random() < 0.7:
+                    s["nullTerminated"] = True
+                if rng.random() < 0.7:
+                    s["binaryFormat"] = "%d%s" % (rng.choice([4, 8, 12, 16, 24, 7]), fmt[-1])
         return s
     k = rng.random()
     if k < 0.3:
@@ -451,6 +458,8 @@ def gen_array(rng, depth, plain=False):
 def gen_index(rng, style):
     if style == 0:
         return None
+    if style == 4:
+        return rng.choice([None, 0, 0, 1])                    # un-indexed (= 0) mixed with explicit ties
     if style == 1:
         return rng.choice([0, 1, 2, 3])                      # many ties
     if style == 2:
@@ -461,12 +470,14 @@ def gen_index(rng, style):
 def gen_object(rng, depth, plain=False, top=False):
     n = rng.choice([0, 1, 1, 2, 2, 3, 3, 4, 5, 6]) if depth > 0 else rng.choice([1, 2])
     names = rng.sample(NAMES, n)
-    style = rng.choice([0, 0, 1, 2, 3])
+    style = rng.choice([0, 0, 1, 2, 3, 4, 4])
+    if style in (1, 4) and rng.random() < 0.5:
+        names = sorted(names, reverse=True)                  # dict order opposite to name order
     props = {}
     for k in names:
         p = gen_node(rng, depth - 1, plain)
         ix = gen_index(rng, style)
-        if ix is not None and rng.random() < 0.8:
+        if ix is not None and (style == 4 or rng.random() < 0.8):
             p["index"] = ix
         props[k] = p
     s = {"type": "object", "properties": props}
@@ -522,12 +533,17 @@ def gen_string(rng, s):
         pool = "abcXYZ09 " if enc != "latin-1" else "abé\xffZ"
         return rng.choice(pool)
     target = n if c == "s" else max(n - 1, 0)
+    if enc in WIDE_ENCODINGS:
+        unit = 4 if "32" in enc else 2
+        target = max(target // unit - (1 if enc in ("utf-16", "utf-32") else 0), 0)
     ln = max(0, rng.choice([0, 1, target - 1, target, target, target + 1, target + 3, rng.randrange(0, target + 5)]))
     ln = min(ln, 320)
     if enc == "ascii":
         pool = "abcXYZ 09_-\x00"
     elif enc == "latin-1":
         pool = "abcXYZ 09éñü\xff\x00"
+    elif enc in WIDE_ENCODINGS:
+        pool = "abcXYZ 09éñü漢\x00" if rng.random() < 0.8 else CHARS
     else:
         pool = CHARS if rng.random() < 0.12 else "abcdefgh XYZ\x00"
     return "".join(rng.choice(pool) for _ in range(ln))
@@ -1222,6 +1238,21 @@ def handwritten_cases():
     yield {"schema": S({"z": dict(I32, index=0), "a": dict(I32, index=1), "m": dict(I32, index=0), "B": I32,
                         "q": dict(I32, index=-0.5), "r": dict(I32, index=1.0)}),
            "values": [{"z": 1, "a": 2, "m": 3, "B": 4, "q": 5, "r": 6}]}
+    # tied indexes written in reverse name order; un-indexed (0) mixed with explicit 0 and 1
+    yield {"schema": S({"z": dict(I32, index=0), "y": I32, "x": dict(I32, index=0), "b": dict(I32, index=1), "a": dict(I32, index=1)}),
+           "values": [{"z": 1, "y": 2, "x": 3, "b": 4, "a": 5}]}
+    yield {"schema": S({"o": {"type": "object", "properties": {"q": dict(I32, index=2), "p": dict(I32, index=2), "c": I32}},
+                        "w": {"type": "array", "length": 1, "items": {"type": "object", "properties": {
+                            "n": dict(I32, index=0), "m": I32}}}}),
+           "values": [{"o": {"q": 1, "p": 2, "c": 3}, "w": [{"n": 4, "m": 5}]}]}
+    # multi-byte code units: NUL termination is on characters, widths are in bytes
+    for enc in WIDE_ENCODINGS:
+        for fmt in ("8s", "12s", "16p", "7s"):
+            for nt in (True, False):
+                sch = {"type": "string", "binaryFormat": fmt, "stringEncoding": enc}
+                if nt:
+                    sch["nullTerminated"] = True
+                yield {"schema": S({"s": sch}), "values": [{"s": v} for v in ("", "a", "ab", "a\x00b", "é漢", "abcdefgh")]}
     # every numeric format at its range ends
     for c, (lo, hi) in INT_RANGE.items():
         yield {"schema": S({"v": {"type": "integer", "binaryFormat": c}}), "values": [{"v": lo}, {"v": hi}, {"v": 0}]}
@@ -1613,6 +1644,46 @@ class TablePaths(StructFamily):
             else:
                 top.append({"enc": {"exc": r} if st == "exc" else "HANG"})
         obs["top"] = top
+        # more of the table-level API on the rows that were accepted: packset_metadata (rows encoded
+        # by the schema object, packed into a table whose schema travelled as a string),
+        # metadata_vector, the lazily decoded + cached row.metadata, reference_sequence.metadata
+        ok_rows = [x for x in res if not isinstance(x, dict)]
+        extra = {}
+
+        def packset():
+            tcp = tc.copy()
+            tp = getattr(tcp, case["kind"])
+            encs = [ms.validate_and_encode_row(untag(case["values"][j])) for j, x in enumerate(res) if not isinstance(x, dict)]
+            tp.packset_metadata(encs)
+            return [list(raw_row(tp, i)) for i in range(len(tp))] == [list(raw_row(t, i)) for i in range(len(t))] \
+                and all(deep_eq(tag(tp[i].metadata), tag(t[i].metadata)) for i in range(len(tp)))
+        clean = all(not (isinstance(r.get("dec"), dict) and set(r["dec"]) == {"exc"}) and r.get("dec") != "HANG"
+                    for r in rows if "dec" in r)        # a row that does not decode (F9h ...) is reported by oracle_row
+        if ok_rows and clean:
+            st, r = guarded(packset, ENC_SECONDS)
+            extra["packset"] = r if st == "ok" else ({"exc": r} if st == "exc" else "HANG")
+            st, r = guarded(lambda: (lambda row: row.metadata is row.metadata)(t[ok_rows[0]]))
+            extra["cached"] = r if st == "ok" else ({"exc": r} if st == "exc" else "HANG")
+            firsts = [rows[k].get("dec") for k in range(len(rows)) if "dec" in rows[k]]
+            keys = [k for k in case["schema"].get("properties", {}) if all(isinstance(d, dict) and not is_tf(d) and k in d for d in firsts)]
+            if keys and firsts:
+                key = keys[0]
+                st, r = guarded(lambda: [tag(x) for x in t.metadata_vector(key, dtype=object).tolist()])
+                extra["vector"] = {"key": key, "got": r if st == "ok" else ({"exc": r} if st == "exc" else "HANG"),
+                                   "want": [d[key] for d in firsts]}
+        tc3 = tskit.TableCollection(1.0)
+        tc3.reference_sequence.metadata_schema = ms
+
+        def refseq_set():
+            tc3.reference_sequence.metadata = untag(case["values"][0])
+            return list(tc3.reference_sequence.metadata_bytes)
+        st, r = guarded(refseq_set, ENC_SECONDS)
+        if st == "ok":
+            st, d = guarded(lambda: tc3.reference_sequence.metadata)
+            extra["refseq"] = {"enc": r, "dec": tag(d) if st == "ok" else ({"exc": d} if st == "exc" else "HANG")}
+        else:
+            extra["refseq"] = {"enc": {"exc": r} if st == "exc" else "HANG"}
+        obs["extra"] = extra
         return obs
 
     def oracle(self, case, obs):
@@ -1631,6 +1702,22 @@ class TablePaths(StructFamily):
                 out.append(("rejected-row-inserted", "add_row raised but the table grew"))
         for tv, row in zip(case["values"], obs["top"]):
             out += oracle_row(case["schema"], tv, row, prefix="")
+        ex = obs.get("extra", {})
+        if ex.get("packset", True) is not True:
+            out.append(("packset-metadata", "rows encoded with the schema object and packed with packset_metadata differ from "
+                        "the rows inserted with add_row (or decode differently): %r" % (ex["packset"],)))
+        if ex.get("cached", True) is not True:
+            out.append(("row-metadata-cache", "row.metadata is not cached / stable: %r" % (ex["cached"],)))
+        if "vector" in ex:
+            v = ex["vector"]
+            if not (isinstance(v["got"], list) and len(v["got"]) == len(v["want"])
+                    and all(deep_eq(a, b) for a, b in zip(v["got"], v["want"]))):
+                out.append(("metadata-vector", "metadata_vector(%r) = %r, rows decode to %r" % (v["key"], v["got"], v["want"])))
+        if "refseq" in ex and case["values"]:
+            row = ex["refseq"]
+            if "dec" not in row and isinstance(row.get("enc"), list):
+                row = dict(row)
+            out += oracle_row(case["schema"], case["values"][0], row, prefix="")
         return dedup(out)
 
     def describe(self, case, obs):
@@ -1708,6 +1795,28 @@ def np_to_tagged(x):
     raise TypeError("np_to_tagged: %r" % type(x))
 
 
+NP_KIND = {"b": 63, "i": 105, "u": 117, "f": 102, "S": 83, "V": 86}
+
+
+def np_flat(dt, base=0):
+    """leaves of a numpy dtype in memory order: [offset, itemsize, kind code]"""
+    out = []
+    if dt.names is not None:
+        for name in dt.names:
+            sub, off = dt.fields[name][:2]
+            out += np_flat(sub, base + off)
+    elif dt.subdtype is not None:
+        item, shape = dt.subdtype
+        n = 1
+        for x in shape:
+            n *= x
+        for i in range(n):
+            out += np_flat(item, base + i * item.itemsize)
+    else:
+        out.append([base, int(dt.itemsize), NP_KIND[dt.kind]])
+    return out
+
+
 def ref_np_view(s, v):
     """what the structured view of a fixed-size row must show: numbers as they decode, 'S'
     fields as the stored bytes with numpy's trailing-NUL stripping, pad bytes as stored"""
@@ -1783,6 +1892,12 @@ class NumpyView(Family):
         obs["records"] = [list(arr[i].tobytes()) for i in range(len(arr))]
         obs["fields"] = [np_to_tagged(arr[i]) for i in range(len(arr))]
         obs["names"] = list(arr.dtype.names or [])
+        obs["flat"] = np_flat(arr.dtype)
+        try:
+            direct = ms.numpy_dtype()         # the schema object itself, not the table's string form
+            obs["direct_same"] = bool(direct == arr.dtype)
+        except Exception as e:
+            obs["direct_same"] = exc_name(e)
         return obs
 
     def oracle(self, case, obs):
@@ -1807,6 +1922,9 @@ class NumpyView(Family):
                          % (case["kind"], obs["view"]["exc"]))]
             return [("numpy-view-failed", "fixed-size schema: ts.%s_metadata raised %s" % (case["kind"], obs["view"]["exc"]))]
         vals = [untag(tv) for tv in case["values"]]
+        if obs.get("direct_same") is not True:
+            out.append(("numpy-dtype-schema-vs-string-form", "schema.numpy_dtype() differs from the dtype of ts.%s_metadata: %r"
+                        % (case["kind"], obs.get("direct_same"))))
         if obs["n"] != len(vals):
             out.append(("numpy-row-count", "%d rows viewed, %d inserted" % (obs["n"], len(vals))))
             return out
@@ -1824,6 +1942,28 @@ class NumpyView(Family):
             elif not deep_eq(obs["fields"][i], tag(want)):
                 out.append(("numpy-view-values", "row %d viewed as %r, decodes as %r" % (i, obs["fields"][i], tag(want))))
         return dedup(out)
+
+    prelude = "From TskVerif Require Import Base.Common C12.Model.\nOpen Scope Z_scope."
+
+    def coq_check(self, case, obs):
+        """the model's dtype spec + numpy's packing rule = the real dtype (itemsize, leaf offsets, kinds)"""
+        if obs.get("construct") != "ok" or "add_row" in obs:
+            return None
+        try:
+            top = "(modify_top %s)" % coq_top(case["schema"])
+        except Untranslatable:
+            return None
+        if "view" in obs:
+            exc = obs["view"]["exc"]
+            if zero_width_array_items(case["schema"]):
+                return None        # np.dtype's own refusal of zero-size sub-arrays (finding F9j, numpy side)
+            want = {"ValueError": "NValueErr", "KeyError": "NKeyErr"}.get(exc)
+            if want is None:
+                return None
+            return "match np_dtype_top %s with %s => true | _ => false end" % (top, want)
+        flat = "[" + "; ".join("(%d, %d, %d)" % (o, sz, k) for o, sz, k in obs["flat"]) + "]"
+        return ("match np_dtype_top %s with NOk d => (dt_itemsize d =? %d) && layout_eqb (dt_layout d 0) %s | _ => false end"
+                % (top, obs["itemsize"], flat))
 
     def nontrivial(self, case, obs):
         return "records" in obs
@@ -2196,12 +2336,11 @@ class StructDecodeBytes(StructFamily):
 FAMILIES = [StructDecodeBytes, StructRoundTrip, StructInvalidValue, StructExhaust, StructInvalidSchema, TablePaths, NumpyView, JsonCodec]
 
 NOT_COVERED = [
-    "stringEncoding values other than utf-8/ascii/latin-1 in the Coq correspondence (utf-16-le is oracle-only); other encodings not generated",
-    "numpy view: proved only as itemsize/kind agreement of FORMAT_TO_DTYPE with the struct sizes; offsets and values are differential (numpy's packed-dtype rule is numpy's)",
-    "schema string round trip: proved for the model (modify . canon . modify = modify); json.dumps/json.loads and the lru_cache are differential",
-    "completeness 'valid and in the format's domain => encode succeeds' is only in the oracle (ref_encode), not a Coq theorem",
-    "round32_impl/widen32_impl satisfy round32 (widen32 w) = Some w only on samples (Example) — the theorems take it as a hypothesis",
-    "MetadataSchema.__str__, metadata_vector, packset_metadata, drop_metadata, _CachedMetadata caching semantics",
+    "stringEncoding other than utf-8/ascii/latin-1 in the Coq model (utf-16/utf-32 variants are generated and checked by the oracle only: strings are byte lists after str.encode in the model)",
+    "numpy view: the dtype spec, itemsize and leaf offsets are modelled and proved equal to the struct layout; the values seen through the view (numpy's own decoding of <i4, S, V ...) are differential",
+    "schema string round trip: proved for the model (modify . canon . modify = modify); json.dumps/json.loads text and the lru_cache are differential",
+    "round32_impl/widen32_impl satisfy round32 (widen32 w) = Some w only on samples (Example) - the theorems take it as a hypothesis",
+    "MetadataSchema.__str__, drop_metadata; packset_metadata / metadata_vector / row.metadata caching / reference_sequence.metadata are oracle-only",
     "jsonschema keywords beyond type/properties/required/additionalProperties/items; meta-schema violations outside the 22 generated rules",
-    "integers beyond 2^53 stored in 'f'/'d' fields (int -> float conversion is modelled exactly only up to 2^53)",
+    "integers beyond 2^53 stored in 'f'/'d' fields (int -> float conversion is modelled exactly only up to 2^53; outside in_domain)",
 ]
